@@ -93,6 +93,17 @@ def drive(rec):
             return (e2.cov, e2.vdw, e2.mass, e2.name, e2.symbol)
         rows.append(row(by_symbol))
         rows.append(row(by_label))
+        # a caller may change the element object it was handed (scaled radii for one molecule ...): later lookups by the same
+        # strings still return the tabulated element
+        try:
+            for key in (e0.symbol, e0.symbol.upper() + "7", e0.name, z):
+                obj = Element[key]
+                obj.vdw, obj.cov, obj.mass, obj.name = 99.0, 0.001, 1.0, "scribble"
+        except Exception:
+            pass
+        rows.append(row(by_symbol))
+        rows.append(row(by_label))
+        rows.append(row(lambda: (lambda e3: (e3.cov, e3.vdw, e3.mass, e3.name, e3.symbol))(Element[e0.name if e0.name != "scribble" else z])))
         a = np.array([z])
         rows.append(row(lambda: (E.cov_radii(a)[0], E.vdw_radii(a)[0], e0.mass, E.element_names(a)[0], E.element_symbols(a)[0])))
         t["rows"] = rows
